@@ -17,10 +17,13 @@ META = {
             "(transport x producer|exchange x header x every step script over emit / log+emit / emit+finish / finish / "
             "log-only / raise up to the length bound x every client operation sequence: k ticks then close | cancel | "
             "iterate, and uses of the session after a cancel x input-schema perturbation exact | reordered | int32->int64 "
-            "| different field set) and checks the 15 clauses of StreamLifeClauses.tla on every reachable state.  Every "
-            "enumerated call is executed on a real pipe connection (RpcServer.serve + RpcConnection) and over HTTP "
-            "in-process (make_sync_client + http_connect) with state objects that record process()/on_cancel() calls "
-            "and the schema they saw; TLC judges every recorded history with the same clause operators.",
+            "| different field set) and checks the 15 clauses of StreamLifeClauses.tla on every reachable state "
+            "(quick: <=2 steps, <=2 leading ticks; thorough: <=4, <=4).  The enumerated calls are executed on a real pipe "
+            "connection (RpcServer.serve + RpcConnection) and over HTTP in-process (make_sync_client + http_connect) with "
+            "state objects that record process()/on_cancel() calls and the schema they saw (thorough: every script with "
+            "<=3 steps and <=3 leading ticks plus a seeded quarter of the longer ones; quick: a seeded half), with seeded "
+            "concrete variants (rows per batch 0/1/3, application metadata, input rows, four different-field-set and four "
+            "compatible-type concretisations); TLC judges every recorded history with the same clause operators.",
     "note": "Trusted: lock-step determinism of the merged history (state events and client events interleave in one "
             "order because the peer is idle while the other runs); 'refuses' is read as 'raises without reaching the "
             "server' (DESIGN §4 C10 and the docstring of HttpStreamSession.cancel); an ended session is not ticked "
